@@ -348,3 +348,172 @@ Proof.
   intros r e [Hd [Hn [Ht Ha]]]. unfold flat_line. repeat split; try assumption.
   rewrite Ha, app_nil_r. cbn [pdot]. rewrite map_id. reflexivity.
 Qed.
+
+(** * the primary name of an entry resolves to the entry's task *)
+Lemma primary_resolves : forall c, ns_wf c = true -> ns_canon c = true ->
+  forall e, In e (tnt c) ->
+  exists t cfgs, ref_path c (split_char "." (le_name e)) = Some (t, cfgs) /\ t_id t = le_task e.
+Proof.
+  induction c as [nm tasks aliases subs dflt ad cfg IH] using coll_ind'.
+  intros Hwf Hcan e HIn.
+  destruct (wf_subs_nodup _ _ _ _ _ _ _ Hwf) as [Hnd1 Hwsubs].
+  rewrite ns_canon_unfold in Hcan. apply andb_true_iff in Hcan as [Hkeys Hcsubs].
+  rewrite forallb_forall in Hkeys, Hcsubs. rewrite Forall_forall in IH.
+  assert (NoDup (akeys tasks)) as NDt by (apply (NoDup_app_l _ _ Hnd1)).
+  rewrite tnt_unfold in HIn. apply in_app_or in HIn. destruct HIn as [HIn|HIn].
+  - unfold own_entries in HIn. apply in_map_iff in HIn. destruct HIn as [[k t] [E HIn]]. subst e.
+    unfold le_name, le_task. cbn [fst snd].
+    assert (In k (akeys tasks)) as Hk by (change k with (fst (k, t)); apply in_map; exact HIn).
+    assert (contains_char "." k = false) as Hd.
+    { apply (key_ok_spec ad k), Hkeys. apply in_or_app; left; exact Hk. }
+    exists t. rewrite (split_dotfree k Hd), ref_unfold. unfold ref_step, sub_ref.
+    assert (assoc k subs = None) as Hs.
+    { apply assoc_none. apply (task_not_sub tasks aliases subs Hnd1 k Hk). }
+    rewrite Hs. unfold task_here. cbn [c_tasks c_aliases].
+    rewrite (assoc_in_nodup k t tasks NDt HIn). eauto.
+  - apply in_flat_map in HIn. destruct HIn as [[cn sc] [Hkc HIn]]. cbn [fst snd] in HIn.
+    apply in_map_iff in HIn. destruct HIn as [e0 [E He0]]. subst e.
+    destruct (IH _ Hkc (Hwsubs _ Hkc) (Hcsubs _ Hkc) e0 He0) as [t [cfgs' [Hr Hid]]].
+    exists t. unfold le_sub, le_name, le_task in *. cbn [fst snd] in *.
+    assert (In cn (akeys subs)) as Hcn by (change cn with (fst (cn, sc)); apply in_map; exact Hkc).
+    assert (contains_char "." cn = false) as Hcd.
+    { apply (key_ok_spec ad cn), Hkeys. apply in_or_app; right. apply in_or_app; right; exact Hcn. }
+    assert (NoDup (akeys subs)) as NDs by (apply NoDup_app_r in Hnd1; apply NoDup_app_r in Hnd1; exact Hnd1).
+    assert (assoc cn subs = Some sc) as Hs by (apply assoc_in_nodup; assumption).
+    rewrite (split_pfx cn _ Hcd), ref_unfold. unfold ref_step.
+    destruct (split_char "." (fst (fst e0))) as [|y l] eqn:Es; [exfalso; eapply split_nonempty; eauto|].
+    unfold sub_ref. rewrite Hs, Hr. cbn [ref_push]. eauto.
+Qed.
+
+Lemma Forall2_in_l {A B} (R : A -> B -> Prop) l1 l2 a :
+  Forall2 R l1 l2 -> In a l1 -> exists b, In b l2 /\ R a b.
+Proof.
+  induction 1 as [|x y l1 l2 Hxy _ IH]; intros HIn; [contradiction|].
+  destruct HIn as [<-|HIn]; [exists y; split; [left; reflexivity | exact Hxy]|].
+  destruct (IH HIn) as [b [Hb Hr]]. exists b. split; [right; exact Hb | exact Hr].
+Qed.
+
+Lemma Forall2_in_r {A B} (R : A -> B -> Prop) l1 l2 b :
+  Forall2 R l1 l2 -> In b l2 -> exists a, In a l1 /\ R a b.
+Proof.
+  induction 1 as [|x y l1 l2 Hxy _ IH]; intros HIn; [contradiction|].
+  destruct HIn as [<-|HIn]; [exists x; split; [left; reflexivity | exact Hxy]|].
+  destruct (IH HIn) as [a [Ha Hr]]. exists a. split; [right; exact Ha | exact Hr].
+Qed.
+
+Lemma Forall2_flat_map_perm {A B C} (f : A -> list C) (g : B -> list C) (R : A -> B -> Prop) l1 l2 :
+  (forall a b, R a b -> Permutation (f a) (g b)) ->
+  Forall2 R l1 l2 -> Permutation (flat_map f l1) (flat_map g l2).
+Proof.
+  intros H. induction 1; cbn [flat_map]; [reflexivity|]. apply Permutation_app; auto.
+Qed.
+
+Lemma Forall2_map_eq {A B C} (f : A -> C) (g : B -> C) (R : A -> B -> Prop) l1 l2 :
+  (forall a b, R a b -> f a = g b) -> Forall2 R l1 l2 -> map f l1 = map g l2.
+Proof. intros H. induction 1; cbn [map]; [reflexivity|]. f_equal; auto. Qed.
+
+(** * inside the guard: what the command line does with a listed name *)
+Theorem listed_name_accepted c :
+  deep_guard c = true ->
+  forall e, In e (tnt c) -> forall m, In m (le_name e :: le_aliases e) ->
+    canonical (c_auto_dash c) m = true /\
+    (exists t, getitem c m = Ok t /\ t_id t = le_task e) /\
+    accepted (model_nobs c m) = true /\
+    cli_run c m = Ok (Some (le_task e)).
+Proof.
+  intros G e He m Hm. pose proof G as G0.
+  unfold deep_guard in G. rewrite !andb_true_iff in G.
+  destruct G as [[[[[[Hu Hwf] Hcan] Hat] Hnd] Hcd] Hnn].
+  set (ad := c_auto_dash c) in *.
+  set (pa := (le_name e, le_aliases e)).
+  assert (In pa (tn c)) as Hpa.
+  { rewrite <- tnt_tn. apply (in_map (fun e => (le_name e, le_aliases e))). exact He. }
+  assert (forall m0, In m0 (all_names (tn c)) -> canonical ad m0 = true) as Hcanon.
+  { intros m0 Hm0. unfold canonical. pose proof (tn_nonempty_segs ad c Hu Hcan Hat m0 Hm0) as Hs.
+    unfold nonempty_segs in Hs. rewrite Hs. cbn [andb].
+    apply normalized_iff_fixed. apply in_all_names in Hm0. destruct Hm0 as [pa0 [Hpa0 Hm0]].
+    destruct (tn_fixed ad c Hu Hcan pa0 Hpa0) as [F1 F2]. destruct Hm0 as [<-|Hm0]; [exact F1 | apply F2; exact Hm0]. }
+  assert (canonical ad m = true) as Hc.
+  { apply Hcanon. apply in_all_names. exists pa. split; [exact Hpa | exact Hm]. }
+  destruct (entries_resolve ad c Hu Hwf Hcan Hat pa Hpa) as [t Ht].
+  destruct (primary_resolves c Hwf Hcan e He) as [t' [cfgs' [Hr' Hid]]].
+  destruct (Ht (le_name e) (or_introl eq_refl)) as [cfgs0 Hr0]. rewrite Hr0 in Hr'.
+  injection Hr' as -> _.
+  destruct (Ht m Hm) as [cfgs Hr].
+  assert (getitem c m = Ok t') as Hg.
+  { apply (lookup_iff_reference c m t' Hu Hwf Hcan Hcd Hc). eauto. }
+  assert (m <> "") as Hne by (apply (canonical_nonempty ad); exact Hc).
+  pose proof (deep_names_agree c m G0 Hne) as Hok.
+  unfold name_ok in Hok. apply andb_true_iff in Hok as [Hacc Hrun].
+  fold ad in Hacc. rewrite Hc in Hacc.
+  assert (resolves (model_nobs c m) = true) as Hres.
+  { unfold resolves, model_nobs. cbn [o_contains]. unfold contains. rewrite Hg. reflexivity. }
+  rewrite Hres in Hacc. cbn [andb] in Hacc. apply Bool.eqb_prop in Hacc.
+  split; [exact Hc|]. split; [exists t'; split; [exact Hg | exact Hid]|]. split; [exact Hacc|].
+  rewrite Hacc in Hrun. unfold model_nobs in Hrun. cbn [o_ran o_getitem] in Hrun. rewrite Hg in Hrun.
+  destruct (cli_run c m) as [[i|]|err]; try discriminate.
+  apply Nat.eqb_eq in Hrun. subst i. rewrite Hid. reflexivity.
+Qed.
+
+(** * the flat listing inside the guard *)
+Definition row_names (r : row) : list string := r_name r :: r_aliases r.
+Definition entry_names (e : lentry) : list string := le_name e :: le_aliases e.
+
+Lemma flat_line_names r e : flat_line r e -> Permutation (row_names r) (entry_names e).
+Proof. intros [_ [Hn [_ Ha]]]. unfold row_names, entry_names. rewrite Hn. apply perm_skip, Ha. Qed.
+
+Lemma all_names_tnt c : all_names (tn c) = flat_map entry_names (tnt c).
+Proof.
+  rewrite <- tnt_tn. unfold all_names. induction (tnt c) as [|e l IH]; [reflexivity|].
+  cbn [map flat_map fst snd]. rewrite IH. reflexivity.
+Qed.
+
+(** every line stands for an entry and every entry has its line: names are
+    listed exactly once, and no displayed name (primary or alias) occurs twice
+    anywhere in the listing *)
+Theorem flat_listed_once c :
+  deep_guard c = true ->
+  Permutation (map r_name (flat_rows c [])) (map le_name (tnt c)) /\
+  NoDup (map le_name (tnt c)) /\
+  NoDup (flat_map row_names (flat_rows c [])) /\
+  (forall e, In e (tnt c) -> exists r, In r (flat_rows c []) /\ flat_line r e) /\
+  (forall r, In r (flat_rows c []) -> exists e, In e (tnt c) /\ flat_line r e).
+Proof.
+  intros G. unfold deep_guard in G. rewrite !andb_true_iff in G.
+  destruct G as [[[[[[Hu Hwf] Hcan] Hat] Hnd] Hcd] Hnn]. apply nodupb_NoDup in Hnn.
+  destruct (flat_listing c Hwf Hcan) as [rows' [HP HF]].
+  assert (map le_name (tnt c) = map fst (tn c)) as Hprims.
+  { rewrite <- tnt_tn, map_map. reflexivity. }
+  repeat split.
+  - rewrite (Permutation_map r_name HP).
+    rewrite (Forall2_map_eq r_name le_name flat_line rows' (tnt c)); [reflexivity | | exact HF].
+    intros a b [_ [H _]]. exact H.
+  - rewrite Hprims. apply prims_nodup; exact Hnn.
+  - apply (Permutation_NoDup (l := all_names (tn c))); [|exact Hnn].
+    rewrite all_names_tnt. symmetry. rewrite (flat_map_perm row_names _ _ HP).
+    apply (Forall2_flat_map_perm row_names entry_names flat_line); [apply flat_line_names | exact HF].
+  - intros e He. destruct (Forall2_in_r _ _ _ e HF He) as [r [Hr Hl]].
+    exists r. split; [apply (Permutation_in r (Permutation_sym HP)); exact Hr | exact Hl].
+  - intros r Hr. apply (Permutation_in r HP) in Hr.
+    destruct (Forall2_in_l _ _ _ r HF Hr) as [e [He Hl]]. eauto.
+Qed.
+
+(** every name a line of the flat listing displays is accepted by the parser
+    registry, runs the task the line stands for, and looks up to that task *)
+Theorem flat_listed_accepted c :
+  deep_guard c = true ->
+  forall r, In r (flat_rows c []) -> forall m, In m (row_names r) ->
+    canonical (c_auto_dash c) m = true /\
+    accepted (model_nobs c m) = true /\
+    cli_run c m = Ok (r_task r) /\
+    exists t, getitem c m = Ok t /\ r_task r = Some (t_id t).
+Proof.
+  intros G r Hr m Hm.
+  destruct (flat_listed_once c G) as [_ [_ [_ [_ Hrows]]]].
+  destruct (Hrows r Hr) as [e [He Hl]].
+  pose proof (Permutation_in m (flat_line_names r e Hl) Hm) as Hm'.
+  destruct (listed_name_accepted c G e He m Hm') as [Hc [[t [Hg Hid]] [Hacc Hrun]]].
+  destruct Hl as [_ [_ [Ht _]]].
+  split; [exact Hc|]. split; [exact Hacc|]. split; [rewrite Ht; exact Hrun|].
+  exists t. split; [exact Hg | rewrite Ht, Hid; reflexivity].
+Qed.
